@@ -1,6 +1,7 @@
 import TrionModel.Lemmas.FrontTargets
 import TrionModel.Lemmas.FrontReject
 import TrionModel.Lemmas.ShowAsm
+import TrionModel.Lemmas.FrontWf
 /-!
 # C04 — an instruction statement assembles to the encoding of what was written
 
@@ -15,7 +16,7 @@ What is proved here, for every address, every spelling and every evaluator:
 * PC-relative operands (`b_target`, `bl_target`, `adr_target`, `ldr_target`): the statement is accepted iff the
   target is a `u32`, `target − (addr + 4 mod 2^32)` (word-aligned first for ADR / literal LDR) is in range and
   aligned — and then exactly that offset is stored;
-* rejections (`arity_rejected`, `kind_rejected`, the `↔` of the target theorems): wrong operand count and
+* rejections (`arity_rejected`, `kind_rejected`, `build_wf`, the `↔` of the target theorems): wrong operand count and
   wrong operand kind give a diagnostic, never an instruction;
 * `[R + k]` and `[k + R]` are the same operand (`addr_order`);
 * `assemble` never panics (`assemble_no_panic`);
@@ -104,6 +105,14 @@ theorem kind_rejected {k : Kind} {eval : Arg → EvalOut} {loc : Bool} {pos done
 
 example : get .register (fun a => .complete a) true 0 0 (.const 5) = .stop (.const 5) 0 (.error (.argType 0 [.ident] .const)) := by
   simp [get, Arg.ty]
+
+/-- C04.e''  Whatever the operands and the evaluator: an instruction that `build` completes has every field
+inside the range of its Rust type (`i32` immediates and offsets, `u16` ADR offset / UDF.W payload, `u8`
+BKPT/SVC/UDF payload) — an operand outside its type's range has produced a diagnostic, never a wrapped or
+truncated field. (Encodability of the in-type value is then the encoder's decision, C01.) -/
+theorem build_wf (a : Nat) (name : Bytes) (args : List Arg) (eval : Arg → EvalOut) (loc : Bool) (i : Instr)
+    (h : build a name args eval loc = .completed i) : i.wf :=
+  build_wf_proof a name args eval loc i h
 
 /-- C04.f  `assemble` never reaches the `self.args[arg_pos]` index panic (the only panic site of the function). -/
 theorem assemble_no_panic (st : St) (eval : Arg → EvalOut) (loc : Bool) : (assemble st eval loc).2 ≠ .panic :=
